@@ -232,10 +232,11 @@ def generate_c(contract, ov):
             obs.append(Obligation("%s/cover:%s" % (name0, n), [], z3.BoolVal(False), kind="cover", props=contract.properties,
                                   expect_sat=True, meta=dict(note="no path matches")))
         else:
-            alts = [z3.And(*(list(st2.pc) + ([] if c is True else [c]))) if (st2.pc or c is not True) else z3.BoolVal(True)
-                    for (st2, c) in hits]
-            obs.append(Obligation("%s/cover:%s" % (name0, n), [], z3.Or(*alts) if len(alts) > 1 else alts[0], kind="cover",
-                                  props=contract.properties, expect_sat=True))
+            # reachable if one of the matching paths is satisfiable; a few candidates are enough (tried in turn)
+            pick = hits if len(hits) <= 4 else [hits[0], hits[len(hits) // 3], hits[2 * len(hits) // 3], hits[-1]]
+            alts = [(list(st2.pc), z3.BoolVal(True) if c is True else c) for (st2, c) in pick]
+            obs.append(Obligation("%s/cover:%s" % (name0, n), alts[0][0], alts[0][1], kind="cover",
+                                  props=contract.properties, expect_sat=True, meta=dict(alternatives=alts[1:])))
     line = decl.get("loc", {}).get("line") or (decl.get("loc", {}).get("expansionLoc") or {}).get("line")
     return cx, obs, dict(sha=sha, paths=len(outcomes), lines=(line, None))
 
@@ -290,10 +291,11 @@ def generate(contract, ov):
             obs.append(Obligation("%s/cover:%s" % (name0, n), [], z3.BoolVal(False), kind="cover",
                                   props=contract.properties, expect_sat=True, meta=dict(note="no path matches")))
         else:
-            alts = [z3.And(*(list(st2.pc) + ([] if c is True else [c]))) if (st2.pc or c is not True) else z3.BoolVal(True)
-                    for (st2, c) in hits]
-            obs.append(Obligation("%s/cover:%s" % (name0, n), [], z3.Or(*alts) if len(alts) > 1 else alts[0], kind="cover",
-                                  props=contract.properties, expect_sat=True))
+            # reachable if one of the matching paths is satisfiable; a few candidates are enough (tried in turn)
+            pick = hits if len(hits) <= 4 else [hits[0], hits[len(hits) // 3], hits[2 * len(hits) // 3], hits[-1]]
+            alts = [(list(st2.pc), z3.BoolVal(True) if c is True else c) for (st2, c) in pick]
+            obs.append(Obligation("%s/cover:%s" % (name0, n), alts[0][0], alts[0][1], kind="cover",
+                                  props=contract.properties, expect_sat=True, meta=dict(alternatives=alts[1:])))
     meta = dict(sha=sha, paths=npaths, lines=(fn.lineno, fn.end_lineno))
     return cx, obs, meta
 
